@@ -99,11 +99,16 @@ func (p Prop) Run(ci interface{}, focus *core.Violation) *core.Outcome {
 	}
 	out.Runs++
 	out.Sample = map[string]interface{}{"op": c.Op, "prepare_stmt": c.Prepare, "fault_free_driver_calls": len(base.Events), "fault_free_hook_calls": len(base.Hooks)}
-	out.TraceHash = core.Hash(base.TraceHashParts()...)
+	baseHash := core.Hash(base.TraceHashParts()...)
+	out.TraceHash = baseHash
 	// viol reports a violation; it returns true when the run must stop.
 	viol := func(class, key, detail string, sr *ops.SingleRun, f *ops.Fault) bool {
 		v := &core.Violation{Class: class, Key: key, Detail: detail}
-		if !out.Report(v, focus, core.Hash(sr.TraceHashParts()...)) {
+		h := core.Hash(sr.TraceHashParts()...)
+		if f != nil {
+			h = ops.FaultedHash(baseHash, f.String(), sr, fmt.Sprint(sr.D1 == base.D1))
+		}
+		if !out.Report(v, focus, h) {
 			return false
 		}
 		if f != nil {
@@ -134,6 +139,7 @@ func (p Prop) Run(ci interface{}, focus *core.Violation) *core.Outcome {
 	} else {
 		id := 0
 		faults = append(ops.DriverSites(base.Events, &id), ops.HookSites(base.Hooks, &id)...)
+		ops.SortFaults(faults)
 		out.Count("sites_total", int64(len(faults)))
 		if c.MaxSites > 0 && len(faults) > c.MaxSites {
 			r := core.NewRand(c.Pick)
@@ -163,7 +169,7 @@ func (p Prop) Run(ci interface{}, focus *core.Violation) *core.Outcome {
 		}
 		if fired {
 			out.Count("fired:"+kind, 1)
-			h := core.Hash(sr.TraceHashParts()...)
+			h := ops.FaultedHash(baseHash, f.String(), sr, fmt.Sprint(sr.D1 == base.D1))
 			if !seen[h] {
 				seen[h] = true
 				out.Hashes = append(out.Hashes, h)
